@@ -94,8 +94,8 @@ def feasible(v: Valuation) -> bool:
     return True
 
 
-def rule_table(ck: Check, repo: Repo) -> None:
-    r = ck.rule("R1", "decision/effect table of Project.reuse_info_of equals the specified precedence table")
+def rule_table(ck: Check, repo: Repo, rid: str = "R1") -> None:
+    r = ck.rule(rid, "decision/effect table of Project.reuse_info_of equals the specified precedence table")
     q = f"{P}.reuse_info_of"
     fn = repo.func(q)
     ck.analysed_fn(q)
